@@ -30,6 +30,9 @@ Clauses (numbered as in the code below):
   * **I6** look-arounds: `start_group ≤ end_group ≤ groups` (the unchecked slice
     `groups.iat(start_group..end_group)`);
   * **I7** look-arounds: the body `(ip, continuation)` is non-empty and contains a `goal`;
+  * **I7b** look-arounds: every `begin`/`end`/`reset` instruction in the body `(ip, continuation)`
+    names a group in `[start_group, end_group)` (`run_lookaround` saves and restores exactly that
+    range; needed for "a failed attempt leaves the groups unchanged", not for error freedom);
   * **I8** `bracket.idx < brackets.size`;
   * **I9** `loop1` at `ip`: `ip + 2 < size` (its continuation) and the instruction at `ip + 1` is
     one accepted by `with_scm_loop_impl` / `with_scm_compute_max` — exactly: `char`, `bracket`,
@@ -83,9 +86,19 @@ def loop1BodyOneChar : Insn → Bool
 def hasGoalBetween (insns : Array Insn) (lo hi : Nat) : Bool :=
   (List.range (hi - lo - 1)).any (fun k => insns[lo + 1 + k]? == some Insn.goal)
 
-/-- The look-around clauses **I1**, **I6**, **I7**. -/
+/-- **I7b**: the capture group instructions strictly between `lo` and `hi` name groups in `[sg, eg)`. -/
+def groupsWithin (insns : Array Insn) (lo hi sg eg : Nat) : Bool :=
+  (List.range (hi - lo - 1)).all (fun k =>
+    match insns[lo + 1 + k]? with
+    | some (.beginCaptureGroup g) => sg ≤ g && g < eg
+    | some (.endCaptureGroup g) => sg ≤ g && g < eg
+    | some (.resetCaptureGroup g) => sg ≤ g && g < eg
+    | _ => true)
+
+/-- The look-around clauses **I1**, **I6**, **I7**, **I7b**. -/
 def wfLook (p : Prog) (ip sg eg k : Nat) : Bool :=
-  sg ≤ eg && eg ≤ p.groups && k < p.insns.size && ip + 1 < k && hasGoalBetween p.insns ip k
+  sg ≤ eg && eg ≤ p.groups && k < p.insns.size && ip + 1 < k && hasGoalBetween p.insns ip k &&
+  groupsWithin p.insns ip k sg eg
 
 /-- **P5**: the instruction `insn` at index `ip`. -/
 def wfInsn (p : Prog) (ip : Nat) (insn : Insn) : Bool :=
